@@ -11,7 +11,6 @@ use saorsa_core::network::verif as wire;
 use saorsa_core::transport_handle::TransportHandle;
 use serde::{Deserialize, Serialize};
 use serde_json::Value;
-use std::collections::HashMap;
 use std::time::Duration;
 
 const ID: &str = "C04";
